@@ -143,6 +143,7 @@ static mut FINALIZES: u32 = 0;
 static mut ADVANCES: u32 = 0;
 /// Contract of Global::collect as seen by unpin: it may run deferred functions (which never touch
 /// this participant's counters) and is entered with the participant still pinned.
+static mut COLLECT_RESCHEDULES: u32 = 0;
 static mut COLLECT_LEAVES_GUARDS: usize = 0;   // guards that destructors run by the collection created and kept alive
 fn k_collect(_g: &Global, guard: &Guard) {
     unsafe {
@@ -154,6 +155,11 @@ fn k_collect(_g: &Global, guard: &Guard) {
         if !guard.local.is_null() && COLLECT_LEAVES_GUARDS > 0 {
             let l = &*guard.local;
             l.guard_count.set(l.guard_count.get() + COLLECT_LEAVES_GUARDS);
+        }
+        // ... and they may defer / flush, i.e. schedule yet another collection (once, in these harnesses)
+        if !guard.local.is_null() && COLLECT_RESCHEDULES > 0 && kani::any() {
+            COLLECT_RESCHEDULES -= 1;
+            (*guard.local).must_collect.set(true);
         }
     }
 }
@@ -237,14 +243,17 @@ fn c16_unpin() {
     GWORD = epoch_word(&c.global.epoch); LWORD = epoch_word(&l.epoch);
     G_MODE = 2; PIN_VAL = ep & !1; G_BUDGET = budget();
     COLLECT_LEAVES_GUARDS = kani::any(); kani::assume(COLLECT_LEAVES_GUARDS <= 2);
+    COLLECT_RESCHEDULES = 1;
     l.unpin();
     let kept = if COLLECTS > 0 { COLLECT_LEAVES_GUARDS * COLLECTS as usize } else { 0 };
     assert!(l.guard_count.get() == gc - 1 + kept, "C16.unpin.counts_one_guard_less");
     assert!(inv_l(l), "C16.unpin.invariant");
     assert!((raw_epoch(&l.epoch) & 1 == 0) == (gc == 1 && kept == 0), "C13.unpin.clears_pinned_bit_only_for_outermost_guard");
     if gc > 1 { assert!(L_UNPIN_WRITES == 0 && COLLECTS == 0 && (raw_epoch(&l.epoch) >> 1) == (ep >> 1), "C16.unpin.inner_guard_changes_nothing_else"); }
-    assert!(COLLECTS == (gc == 1 && !collecting && must) as u32, "C15.unpin.runs_scheduled_collection_from_outermost_unpin");
+    let rescheduled = 1 - COLLECT_RESCHEDULES;
+    assert!(COLLECTS == if gc == 1 && !collecting && must { 1 + rescheduled } else { 0 }, "C15.unpin.runs_scheduled_collection_from_outermost_unpin");
     if COLLECTS > 0 { assert!(COLLECT_PINNED && COLLECT_GUARD_LOCAL == l as *const Local as usize && !l.must_collect.get(), "C13.unpin.collects_while_still_pinned"); }
+    kani::cover!(COLLECTS == 2, "cover.unpin.collection_rescheduled_by_a_destructor");
     assert!(l.collecting.get() == collecting, "C16.unpin.collecting_flag_restored");
     assert!(FINALIZES == (gc == 1 && kept == 0 && hc == 0) as u32, "C15.unpin.finalizes_only_handleless_participant");
     kani::cover!(kept > 0, "cover.unpin.destructor_kept_a_guard");
